@@ -14,6 +14,19 @@ pub fn has_name(node: &Node, name: &str) -> bool {
     tag.name() == name && tag.namespace() == node.document().root_element().tag_name().namespace()
 }
 
+/// Returns the text content of an element or `None` if it has none.
+///
+/// Only the direct text children are used, so foreign child elements from E57
+/// extensions that are placed in front of, after or inside the text do not change the result.
+pub fn text(node: &Node) -> Option<String> {
+    let mut parts = node
+        .children()
+        .filter(|n| n.is_text())
+        .filter_map(|n| n.text());
+    let first = parts.next()?;
+    Some(parts.fold(first.to_owned(), |text, part| text + part))
+}
+
 pub fn opt_string(parent_node: &Node, tag_name: &str) -> Result<Option<String>> {
     if let Some(tag) = parent_node.children().find(|n| has_name(n, tag_name)) {
         let expected_type = "String";
@@ -26,8 +39,7 @@ pub fn opt_string(parent_node: &Node, tag_name: &str) -> Result<Option<String>> 
         } else {
             Error::invalid(format!("XML tag '{tag_name}' has no 'type' attribute"))?
         }
-        let text = tag.text().unwrap_or("");
-        Ok(Some(text.to_string()))
+        Ok(Some(text(&tag).unwrap_or_default()))
     } else {
         Ok(None)
     }
@@ -53,7 +65,7 @@ fn opt_num<T: FromStr + Sync + Send>(
         } else {
             Error::invalid(format!("XML tag '{tag_name}' has no 'type' attribute"))?
         }
-        let text = tag.text().unwrap_or("0");
+        let text = text(&tag).unwrap_or_else(|| "0".to_owned());
         if let Ok(parsed) = text.parse::<T>() {
             Ok(Some(parsed))
         } else {
